@@ -385,13 +385,14 @@ def witnesses_c11(tier, seed):
         jobs.append('build\n' + exp[1] if exp[0] == 'same_as' else 'build\nnop\n')
     res = replay.run_jobs(jobs, timeout_per_job=30)
     out = []
-    keys = ('status', 'code', 'eeprom', 'ram_filling', 'err')
+    keys = ('status', 'code', 'eeprom', 'ram_filling', 'messages', 'err')
+    strip = lambda ms: [re.sub(r' in line: \d+$', '', m) for m in (ms or [])]     # line numbers are per file: not comparable with the pasted text
     for i, (name, job, exp) in enumerate(ws):
         r, rf = res[2 * i], res[2 * i + 1]
         obs = dict((k, r.get(k)) for k in keys if k in r)
         if exp[0] == 'same_as':
             if r.get('status') == 'ok' and rf.get('status') == 'ok':
-                ok = all(r.get(k) == rf.get(k) for k in ('code', 'eeprom', 'ram_filling'))
+                ok = all(r.get(k) == rf.get(k) for k in ('code', 'eeprom', 'ram_filling')) and strip(r.get('messages')) == strip(rf.get('messages'))
             else:
                 ok = r.get('status') == 'err' and rf.get('status') == 'err'    # e.g. a file included twice defines a label twice: fails either way
             out.append(WitnessResult('include:' + name, job, ok, dict(with_files=obs, pasted=dict((k, rf.get(k)) for k in keys if k in rf)),
@@ -466,6 +467,17 @@ def witnesses_layout(tier, seed, with_org=True):
         ('string_in_dw_fails', '.dw "ab"\n', 'error'),
         ('db_in_dseg_fails', '.dseg\n.db 1\n', 'error'),
         ('byte_in_cseg_fails', '.byte 2\n', 'error'),
+        # values at and beyond the element widths, written as literals of every radix (the literal forms are grammar)
+        ('db_range_limits', '.db -128, 255, 0xff, $80, 0b11111111, 0377\n', dict(code='80ffff80ffff')),
+        ('db_256_fails', '.db 256, 0\n', 'error'), ('db_hex_100_fails', '.db 0x100, 0\n', 'error'), ('db_minus_129_fails', '.db -129, 0\n', 'error'),
+        ('db_hex_literal_of_64_ones_fails', '.db 0xFFFFFFFFFFFFFFFF, 0\n', 'error'), ('db_dollar_literal_beyond_i64_fails', '.db $FFFFFFFFFFFFFF80, 0\n', 'error'),
+        ('dw_hex_literal_beyond_i64_fails', '.dw 0xFFFFFFFFFFFF8000\n', 'error'), ('dd_hex_literal_beyond_i64_fails', '.dd 0xFFFFFFFFFFFFFFFE\n', 'error'),
+        ('dq_hex_2_63_fails', '.dq 0x8000000000000000\n', 'error'), ('dq_decimal_2_63_fails', '.dq 9223372036854775808\n', 'error'),
+        ('dq_binary_64_ones_fails', '.dq 0b' + '1' * 64 + '\n', 'error'), ('dq_octal_beyond_i64_fails', '.dq 01' + '0' * 21 + '\n', 'error'),
+        ('dq_i64_max_all_radixes', '.dq 0x7FFFFFFFFFFFFFFF\n.dq $7fffffffffffffff\n.dq 9223372036854775807\n.dq 0b0' + '1' * 63 + '\n',
+         dict(code='ffffffffffffff7f' * 4)),
+        ('dw_range_limits', '.dw -32768, 65535, 0xffff\n', dict(code='0080ffffffff')), ('dw_65536_fails', '.dw 65536\n', 'error'),
+        ('dd_range_limits', '.dd -2147483648, 4294967295\n', dict(code='00000080ffffffff')), ('dd_2_32_fails', '.dd 4294967296\n', 'error'),
     ]
     if not with_org:
         fixed = [f for f in fixed if not f[0].startswith('org_zero')]
@@ -568,7 +580,15 @@ def witnesses_c12(tier, seed):
             jobs.append('build\n.device %s\n%s' % (n, over)); meta.append((n, mem, 'one above', 'err', cap))
     extra = [('unknown_device', 'build\n.device ATnothing\nnop\n', 'err'), ('second_device', 'build\n.device ATmega8\n.device ATmega16\nnop\n', 'err'), ('second_device_same_row', 'build\n.device ATtiny25\n.device ATtiny2313\nnop\n', 'err'),
              ('same_device_twice', 'build\n.device ATmega8\n.device ATmega8\nnop\n', 'err'),
-             ('default_sizes', 'build\nnop\n', 'ok'), ('ram_filling_extent', 'build\n.device ATmega48\n.dseg\n.byte 10\n.org 0x120\n.byte 3\n', 'ok')]
+             ('default_sizes', 'build\nnop\n', 'ok'), ('ram_filling_extent', 'build\n.device ATmega48\n.dseg\n.byte 10\n.org 0x120\n.byte 3\n', 'ok'),
+             # a device selected where it is executed late: inside a macro body (pass 0) / an included file
+             ('device_selected_in_macro', 'build\n.macro chip\n.device ATmega48\n.endm\n chip\n nop\n', 'ok'),
+             ('device_selected_in_macro_limit', 'build\n.macro chip\n.device ATtiny13\n.endm\n chip\n.org 0x200\n nop\n', 'err'),
+             ('device_selected_in_include', 'tree main.asm \n@@ main.asm\n.include "chip.inc"\n nop\n@@ chip.inc\n.device ATmega48\n', 'ok'),
+             # capacity reached by a macro expansion placed by .org
+             ('macro_after_org_at_flash_end', 'build\n.device ATtiny13\n.macro one\n nop\n.endm\n.org 0x1ff\n one\n', 'ok'),
+             ('macro_after_org_beyond_flash_end', 'build\n.device ATtiny13\n.macro two\n nop\n nop\n.endm\n.org 0x1ff\n two\n', 'err'),
+             ('macro_after_org_past_flash', 'build\n.device ATtiny13\n.macro one\n nop\n.endm\n.org 0x200\n one\n', 'err')]
     jobs += [e[1] for e in extra]
     res = replay.run_jobs(jobs, timeout_per_job=30)
     out = []
@@ -585,13 +605,18 @@ def witnesses_c12(tier, seed):
             ok = ok and (r['flash_size'], r['eeprom_size'], r['ram_size']) == (4194304, 65536, 8388608)
         if name == 'ram_filling_extent':
             ok = ok and r['ram_filling'] == 0x123 - 0x100
+        if name in ('device_selected_in_macro', 'device_selected_in_include'):
+            ok = ok and (r['flash_size'], r['eeprom_size'], r['ram_size']) == (rows['ATmega48']['flash_size'], rows['ATmega48']['eeprom_size'], rows['ATmega48']['ram_size'])
+        if name == 'macro_after_org_at_flash_end':
+            ok = ok and len(r['code']) == 2 * 2 * 0x200
         out.append(WitnessResult(name, job, ok, dict((k, r.get(k)) for k in ('status', 'flash_size', 'eeprom_size', 'ram_size', 'ram_filling', 'err')), want, 'build/'))
     return out
 
 
 PROPS['C12'] = dict(
     level_text='Proof: (Verus) build_from_parsed verbatim: Ok iff the three passes are Ok and code <= 2*flash, eeprom <= eeprom_size, '
-               'ram_filling <= ram_size of the context\'s device (no overflow, no truncation), reported sizes are the device\'s; pass 1 '
+               'ram_filling <= ram_size of the device selected once pass 0 has run (a .device inside a macro body is executed then), no overflow, '
+               'no truncation, reported sizes are that device\'s; pass 1 '
                'stops at the same capacities and ram_filling = end of data - RAM start (unit PASS1); 246 generated obligations: every table '
                'row is in range and equals each figure its shipped part file declares; (Kani) Device::new defaults.',
     level_note='the `.device` arm of Directive::parse (lookup, single-selection rule, frame) is clause #device of unit DIR; '
@@ -709,6 +734,9 @@ def witnesses_c10(tier, seed):
         ('undefined_in_set', '.set a = nosuch\n', 'error'),
         ('duplicate_label', 'a: nop\na: nop\n', 'error'),
         ('duplicate_label_case', 'a: nop\nA: nop\n', 'error'),
+        ('duplicate_label_same_address', 'a:\na: nop\n', 'error'),
+        ('duplicate_label_same_address_after_set', 'a:\n.set x = 1\nA: nop\n', 'error'),
+        ('duplicate_label_same_address_dseg', '.dseg\nv:\nv: .byte 1\n', 'error'),
         ('duplicate_label_other_segment', 'a: nop\n.dseg\na: .byte 1\n', 'error'),
         ('set_before_definition_fails', '.db later, 0\n.set later = 3\n', 'error'),
         ('undef_unknown_fails', '.undef nothing\n', 'error'),
@@ -774,6 +802,20 @@ def witnesses_c08(tier, seed):
         ok = r.get('status') == 'ok' and r.get('code') == img.hex() and rk.get('status') == 'ok' and rk.get('code') == r.get('code')
         out.append(WitnessResult('cond:%d' % i, 'build\n' + src, ok, dict(full=dict((k, r.get(k)) for k in ('status', 'code', 'err')), deleted=dict((k, rk.get(k)) for k in ('status', 'code', 'err'))),
                                  dict(code=img.hex(), note='same image as the program with the unselected lines deleted'), 'cond/'))
+    # conditions whose truth is not 0/1 and names in unusual letter case: which branch is the one "whose condition holds"
+    sel = lambda cond, pre='': pre + '.if %s\n ldi r16, 1\n.else\n ldi r16, 2\n.endif\n' % cond
+    fixed = [('nonzero_is_true', sel('5'), '01e0'), ('negative_is_true', sel('0 - 1'), '01e0'), ('complement_is_true', sel('~0'), '01e0'),
+             ('and_of_disjoint_bits', sel('2 && 1'), '01e0'), ('and_of_disjoint_bits_2', sel('8 && 4'), '01e0'), ('or_of_zero_and_bit', sel('0 || 4'), '01e0'),
+             ('and_with_zero', sel('4 && 0'), '02e0'), ('not_of_nonzero', sel('!7'), '02e0'), ('difference_zero', sel('3 - 3'), '02e0'),
+             ('equ_in_condition_any_case', sel('Mode == 3', '.equ MODE = 3\n'), '01e0'),
+             ('define_flag_is_zero', '.define FAST\n.if FAST\n ldi r16, 1\n.elif !FAST\n ldi r16, 2\n.endif\n', '02e0'),
+             ('define_beats_equ_of_other_case', '.equ mode = 3\n.define Mode\n.if Mode == 3\n ldi r16, 1\n.else\n ldi r16, 2\n.endif\n', '02e0'),
+             ('ifdef_exact_case', '.define Fast\n.ifdef Fast\n ldi r16, 1\n.else\n ldi r16, 2\n.endif\n', '01e0'),
+             ('ifndef_undefined', '.ifndef nothing\n ldi r16, 1\n.else\n ldi r16, 2\n.endif\n', '01e0'),
+             ('elif_negative', '.if 0\n ldi r16, 1\n.elif 1 - 3\n ldi r16, 2\n.else\n ldi r16, 3\n.endif\n', '02e0')]
+    res2 = replay.run_jobs(['build\n' + f[1] for f in fixed])
+    for (name, src, want), r in zip(fixed, res2):
+        out.append(WitnessResult('select:' + name, 'build\n' + src, r.get('status') == 'ok' and r.get('code') == want, dict((k, r.get(k)) for k in ('status', 'code', 'err')), want, 'cond/'))
     return out
 
 
@@ -786,7 +828,8 @@ PROPS['C08'] = dict(
     level_note='what the PEG grammar classifies a line as (parsed()) is uninterpreted; the relational statement "identical to the program with the '
                'unselected lines deleted" is a meta-theorem over the fold and is only exercised by generated witnesses',
     technique='Verus loop invariants on the extracted skip/parse_iter against recursive nesting and driver oracles + contract on Directive::parse arms',
-    verus=['cond', 'dir'],
+    verus=['cond', 'dir', 'expr', 'ctxu'],
+    depends_on=['C05', 'C10'],   # 'the first branch whose condition holds': the value of the condition (C05) and the lookup of .define / .equ names in it (C10) are presupposed
     witnesses=witnesses_c08,
     functions=['parser::skip', 'parser::parse_iter', 'directive::Directive::parse (If/ElIf/IfDef/IfNDef/Else/Endif/Define arms)'],
     explanation='branch_end/block_end/skip_ret/skip_pos and drive/line_step in contracts/cond.vspec are the oracle; dir.vspec carries the arms.',
@@ -824,7 +867,10 @@ def witnesses_c15(tier, seed):
                   ('db_in_dseg', '.dseg\n.byte 1\n.db 1\n', 3),
                   ('undefined_in_eeprom_data', '.eseg\n.db 1\n.dw nosuch\n', 3),
                   ('duplicate_label_in_dseg', 'a: nop\n.dseg\nb: .byte 1\na: .byte 1\n', 4),
-                  ('range_in_taken_else', 'nop\n.if 0\n nop\n.else\n ldi r16, 999\n.endif\n', 5)]
+                  ('range_in_taken_else', 'nop\n.if 0\n nop\n.else\n ldi r16, 999\n.endif\n', 5),
+                  ('duplicate_label_at_same_address', 'nop\nagain:\nagain: nop\n', 3),
+                  ('duplicate_label_at_same_address_other_case', 'nop\nagain:\n.set q = 2\nAGAIN: nop\n', 4),
+                  ('duplicate_label_at_same_address_in_dseg', '.dseg\nv: .byte 0\nv: .byte 1\n', 3)]
     for name, text, line_no in seg_faults:
         jobs.append('build\n' + text)
         meta.append((name, line_no))
@@ -832,8 +878,34 @@ def witnesses_c15(tier, seed):
     jobs.append('build\n' + msgs_only)
     msgs = 'nop\n.message "one"\n.if 0\n.message "hidden"\n.error "hidden too"\n.else\n.warning "two"\n.endif\nnop\n.message "three"\n'
     jobs.append('build\n' + msgs)
-    res = replay.run_jobs(jobs)
+    msg_cases = [
+        ('messages_from_macro_body', 'build\n.macro note\n.message "in macro"\n nop\n.warning "macro warns"\n.endm\n.message "before"\n note\n.message "between"\n note\n.message "after"\n',
+         ['info: before', 'info: in macro', 'warning: macro warns', 'info: between', 'info: in macro', 'warning: macro warns', 'info: after']),
+        ('messages_from_nested_macro', 'build\n.macro inner\n.message "inner"\n.endm\n.macro outer\n.message "outer"\n inner\n.endm\n outer\n.message "end"\n',
+         ['info: outer', 'info: inner', 'info: end']),
+        ('messages_from_included_file', 'tree main.asm \n@@ main.asm\n.message "main 1"\n.include "a.inc"\n.message "main 2"\n@@ a.inc\n.warning "inc"\n nop\n',
+         ['info: main 1', 'warning: inc', 'info: main 2']),
+        ('error_in_macro_body_fails', 'build\n.macro bad\n.error "from macro"\n.endm\n nop\n bad\n', None),
+    ]
+    base_msg = len(jobs)
+    jobs += [c[1] for c in msg_cases]
+    res_all = replay.run_jobs(jobs)
+    res = res_all
     out = []
+    for k, (name, job, want) in enumerate(msg_cases):
+        r = res_all[base_msg + k]
+        if want is None:
+            ok = r.get('status') == 'err'
+        else:
+            # messages produced while a macro is expanded (pass 0) are appended after the messages of the text itself (parse time): where
+            # they belong relative to those is not fixed by the property; what is checked: every message is there as often as its line is
+            # assembled, and each of the two groups is in its own order
+            got = [re.sub(r' in line: \d+$', '', m) for m in r.get('messages', [])] if r.get('status') == 'ok' else None
+            inner = lambda m: any(w in m for w in ('in macro', 'macro warns', 'inner', 'outer'))
+            ok = got is not None and [m for m in got if inner(m)] == [m for m in want if inner(m)] and [m for m in got if not inner(m)] == [m for m in want if not inner(m)]
+        out.append(WitnessResult(name, job, ok, dict((k2, r.get(k2)) for k2 in ('status', 'messages', 'err')), want if want is not None else 'the build fails', 'errors/'))
+    jobs = jobs[:base_msg]
+    res = res_all[:base_msg]
     for (name, line_no), job, r in zip(meta, jobs, res):
         ok = r.get('status') == 'err' and re.search(r'line: %d\b' % line_no, r.get('err', '')) is not None
         out.append(WitnessResult('fault:%s@line%d' % (name, line_no), job, ok, dict((k, r.get(k)) for k in ('status', 'err')),
@@ -857,7 +929,8 @@ PROPS['C15'] = dict(
     level_note='the rendering "line: N" (fmt::Display) and the message text are dropped by extraction: bound by single-fault witnesses; errors raised '
                'inside pass 0 (macro expansion) and inside an included file are not under contract',
     technique='Verus postconditions on error locations over the extracted passes / Directive::parse / parse_iter (rule R1 keeps the location)',
-    verus=['pass1', 'pass2', 'dir', 'cond', 'data', 'encv', 'expr', 'pass0'],
+    verus=['pass1', 'pass2', 'dir', 'cond', 'data', 'encv', 'expr', 'pass0', 'ctxu'],
+    depends_on=['C10'],      # 'an undefined symbol ..., a duplicate label' fail the build: the C10 clauses (set_label reports a rebinding, unbound => Err) are presupposed
     whole_units=['expr'],     # an expression that must fail but evaluates hides the fault: every clause of EXPR counts here
     witnesses=witnesses_c15,
     functions=['pass_1_internal', 'pass_2_internal', 'build_pass_2', 'Directive::parse', 'parse_iter', 'process / GetData (no location)'],
